@@ -101,16 +101,13 @@ func (rl *RateLimitValidator) Validate(ctx context.Context, req ports.SecurityRe
 		limit = rl.perIPRequestsPerMinute
 	}
 
-	if limit <= 0 {
-		return ports.SecurityResult{
-			Allowed:   true,
-			RateLimit: 0,
-			Remaining: 0,
-			ResetTime: now.Add(time.Minute),
-		}, nil
-	}
-
+	// The global limit stands on its own: it applies whether or not a per-IP limit is
+	// configured for this kind of request.
 	if rl.globalLimiter != nil {
+		reportedLimit := limit
+		if reportedLimit <= 0 {
+			reportedLimit = rl.globalRequestsPerMinute
+		}
 		reservation := rl.globalLimiter.Reserve()
 		if !reservation.OK() || reservation.Delay() > 0 {
 			if reservation.Delay() > 0 {
@@ -119,12 +116,21 @@ func (rl *RateLimitValidator) Validate(ctx context.Context, req ports.SecurityRe
 			return ports.SecurityResult{
 				Allowed:    false,
 				RetryAfter: 60,
-				RateLimit:  limit,
+				RateLimit:  reportedLimit,
 				Remaining:  0,
 				ResetTime:  now.Add(time.Minute),
 				Reason:     "Rate limit exceeded",
 			}, nil
 		}
+	}
+
+	if limit <= 0 {
+		return ports.SecurityResult{
+			Allowed:   true,
+			RateLimit: 0,
+			Remaining: 0,
+			ResetTime: now.Add(time.Minute),
+		}, nil
 	}
 
 	return rl.checkIPLimit(req.ClientID, limit, now, req.IsHealthCheck), nil
